@@ -15,7 +15,9 @@ RUNS = {"quick": 10000, "thorough": 250000}
 BUDGET_S = {"quick": 60, "thorough": 900}
 RULE = ("seeded scenario scripts with 2..10 overlapping deliveries per worker; every task and every dependency (plain, coroutine, "
         "generator, async generator, context manager, async context manager; cached or use_cache=False; nested to depth 3) echoes "
-        "Context.message task id / args / labels, with suspension points before late-resolved dependencies; non-trivial = two "
+        "Context.message task id / args / labels, with suspension points before late-resolved dependencies; half of the runs pass "
+        "hash-equal scalars of different types (True/1/1.0) to a Union-annotated parameter, every fifth run has the retry middleware "
+        "re-sending failed messages; non-trivial = two "
         "deliveries overlapped inside callback(); distinct = distinct interleaving signature")
 
 KNOBS = {
